@@ -96,7 +96,7 @@ def compositions(n: int):
 
 
 def gen_cases(tier: str, seed: int) -> list[dict[str, Any]]:
-    n = 160 if tier == "quick" else 3000
+    n = 160 if tier == "quick" else 30000
     cases = []
     for i in range(n):
         rng = C.rng_for(seed, 3, i)
@@ -109,7 +109,7 @@ def gen_cases(tier: str, seed: int) -> list[dict[str, Any]]:
             cases.append(dict(P=P, files=files, S=S, E=E, reversed=rev, nscalars=1, packed=False, dt=600, salt=k))
     if tier == "thorough":
         # exhaustive: all compositions of <= 6 frames into files x all start offsets x 2 directions, spacing in {1,2,3}
-        for nfr in range(2, 7):
+        for nfr in range(2, 8):
             for g in (1, 2, 3):
                 P = [g * i for i in range(nfr)]
                 for files in compositions(nfr):
